@@ -250,3 +250,94 @@ def antisense_dataset(seed, n_chroms=2, loci_per_chrom=4, reads_per_tx=5, lower_
                 i += w
             ds.chroms[chrom] = "".join(out)
     return ds, truth
+
+
+# ------------------------------------------------------------------------------------------------
+# printed attribute lists of transcript lines (C18 canonical_attr_unique)
+
+ATTR_KEYS = ["Canonical", "Canonical", "Canonical", "exons", "level", "ID", "Parent", "tag", "transcript_name", "transcript_type",
+             "similar_reference_id", "alternatives", "transcripts", "exon_number", "empty", "canonical", "Canonical_sites"]
+_WORD = "ABCDEFGHIJKLMNOPQRSTUVWXYZabcdefghijklmnopqrstuvwxyz0123456789_.:-"
+
+
+def rand_attr_value(rng, key):
+    if key == "Canonical":
+        return rng.choice(["True", "False", "Unspliced", "True", "False", "NA"])
+    if key == "exons":
+        return str(rng.randint(1, 9))
+    if key == "empty":
+        return ""
+    w = "".join(rng.choice(_WORD) for _ in range(rng.randint(1, 8)))
+    return w if rng.random() < 0.85 else w + " " + w[:2]
+
+
+def rand_ref_attrs(rng, p_canonical=0.7):
+    """attribute items of a reference transcript line after gene_id / transcript_id: repeated keys (also a repeated,
+    contradicting `Canonical`) on purpose"""
+    items = []
+    if rng.random() < p_canonical:
+        items.append(["Canonical", rand_attr_value(rng, "Canonical")])
+    for _ in range(rng.randint(0, 5)):
+        k = rng.choice(ATTR_KEYS)
+        items.append([k, rand_attr_value(rng, k)])
+    rng.shuffle(items)
+    return items
+
+
+def _chain_exons(rng, introns, a, b):
+    inside = sorted(it for it in set(introns) if a < it[0] and it[1] < b and it[0] <= it[1])
+    chain = []
+    for it in inside:
+        if rng.random() < 0.7 and (not chain or chain[-1][1] + 1 < it[0]):
+            chain.append(it)
+    bounds = [a] + [x for it in chain for x in (it[0] - 1, it[1] + 1)] + [b]
+    return [[bounds[i], bounds[i + 1]] for i in range(0, len(bounds), 2)]
+
+
+def attr_case(rng):
+    """a small reference annotation (1-3 genes with 1-2 transcripts each, random attributes incl. stale / repeated `Canonical`),
+    0-2 novel models (fresh, with model-constructor attributes, or already carrying `Canonical`/`exons` as in the
+    extended-annotation pass), a chromosome with planted splice sites; `path`: `extended` (whole-chromosome gene info through
+    create_extended_storage) or `locus` (GeneInfo of the genes + set_reference_sequence on a window that may end beyond the
+    contig)"""
+    n = rng.choice([60, 90, 140])
+    chrom, introns = planted_sequence(rng, n=n, start=1)
+    genes, lo_all, hi_all = [], n, 1
+    tcount = 0
+    for gi_ in range(rng.randint(1, 3)):
+        strand = rng.choice("+-")
+        txs = []
+        for _ in range(rng.randint(1, 2)):
+            a = rng.randint(1, n - 12)
+            b = rng.randint(a + 8, n)
+            ex = _chain_exons(rng, introns, a, b)
+            tcount += 1
+            tid = rng.choice(["T%d", "transcript%d.chr1.nic", "transcript%d.chr1.nnic"]) % tcount
+            t = {"id": tid, "exons": ex, "attrs": rand_ref_attrs(rng)}
+            if rng.random() < 0.3:
+                t["exon_attrs"] = [["Canonical", rand_attr_value(rng, "Canonical")]]
+            txs.append(t)
+            lo_all, hi_all = min(lo_all, a), max(hi_all, b)
+        genes.append({"gene_id": "G%d" % gi_, "strand": strand, "transcripts": txs,
+                      "attrs": [[k, rand_attr_value(rng, k)] for k in rng.sample(["transcripts", "gene_name", "level", "tag"], rng.randint(0, 2))]})
+    novel = []
+    for k in range(rng.randint(0, 2)):
+        a = rng.randint(1, n - 12)
+        b = rng.randint(a + 8, n)
+        ex = _chain_exons(rng, introns, a, b)
+        info = []
+        if rng.random() < 0.4:
+            info += [["similar_reference_id", genes[0]["transcripts"][0]["id"]], ["alternatives", rand_attr_value(rng, "tag")]]
+        if rng.random() < 0.35:      # dumped once already (per-locus pass) -> carries Canonical and exons
+            info += [["Canonical", rng.choice(["True", "False", "Unspliced"])], ["exons", str(len(ex))]]
+        novel.append({"gene_id": rng.choice([genes[0]["gene_id"], "novel_gene_chr1_%d" % k]),
+                      "transcript_id": "transcript%d.chr1.%s" % (900 + k, rng.choice(["nic", "nnic"])),
+                      "exons": ex, "strand": rng.choice("+-"), "info": info})
+        lo_all, hi_all = min(lo_all, a), max(hi_all, b)
+    path = rng.choice(["extended", "locus", "locus"])
+    if path == "extended":
+        start, end = 1, n
+    else:
+        start = max(1, lo_all - rng.choice([0, 0, 1, 5]))
+        end = hi_all + rng.choice([0, 0, 1, 5, 40, 1000])       # also beyond the end of the contig
+    return {"chrom": chrom, "start": start, "end": end, "path": path, "check": rng.random() < 0.85, "genes": genes, "novel": novel}
